@@ -14,7 +14,9 @@
 #include <fcppt/log/name.hpp>
 #include <fcppt/log/object.hpp>
 #include <fcppt/log/optional_level.hpp>
+#include <fcppt/log/out.hpp>
 #include <fcppt/log/parameters.hpp>
+#include <fcppt/log/detail/temporary_output.hpp>
 #include <fcppt/log/format/default_level.hpp>
 #include <fcppt/log/format/optional_function.hpp>
 #include <functional>
@@ -255,6 +257,23 @@ struct World
       f.obj_paths.push_back(info.path);
       f.objs.push_back(std::move(o));
     }
+    else if (n == "log")
+    {
+      // only the designated thread 0 logs (the library does not promise that sinks may be shared);
+      // whether the message came out is a lock-free observation of the object's level
+      if (f.objs.empty() || fiber != 0)
+        return;
+      std::size_t const oi = op.getu("o") % f.objs.size();
+      info.path = f.obj_paths[oi];
+      info.kind = Kind::enabled;
+      info.arg = static_cast<int>(op.getu("l") % 6);
+      std::size_t const before = sinkbuf[info.arg]->str().size();
+      info.inv = sim::sched::record(fiber, k, false, 0);
+      f.objs[oi]->log(static_cast<fcppt::log::level>(info.arg), fcppt::log::out << "m");
+      std::size_t const after = sinkbuf[info.arg]->str().size();
+      info.result = after != before ? 1 : 0;
+      info.ret = sim::sched::record(fiber, k, true, info.result);
+    }
     else if (n == "level" || n == "enabled")
     {
       if (f.objs.empty())
@@ -486,8 +505,8 @@ void generate(sim::Rng &rng, sim::Plan &p, bool)
       path.push_back(static_cast<unsigned>(rng.below(names)));
     return static_cast<long>(index_of(path));
   };
-  static char const *const kinds[] = {"set", "get", "obj_ctx", "obj_loc", "obj_parent", "level", "enabled"};
-  unsigned weights[7];
+  static char const *const kinds[] = {"set", "get", "obj_ctx", "obj_loc", "obj_parent", "level", "enabled", "log"};
+  unsigned weights[8];
   for (unsigned &w : weights)
     w = static_cast<unsigned>(rng.range(1, 4));
   weights[0] += 2;
@@ -497,7 +516,7 @@ void generate(sim::Rng &rng, sim::Plan &p, bool)
     for (unsigned w : weights)
       total += w;
     unsigned r = static_cast<unsigned>(rng.below(total));
-    for (unsigned k = 0; k < 7; ++k)
+    for (unsigned k = 0; k < 8; ++k)
     {
       if (r < weights[k])
         return kinds[k];
@@ -519,9 +538,9 @@ void generate(sim::Rng &rng, sim::Plan &p, bool)
       op.set("name", static_cast<long>(rng.below(names)));
     if (n == "obj_parent")
       op.set("p", static_cast<long>(rng.below(4))).set("loc", loc(2));
-    if (n == "level" || n == "enabled")
+    if (n == "level" || n == "enabled" || n == "log")
       op.set("o", static_cast<long>(rng.below(4)));
-    if (n == "enabled")
+    if (n == "enabled" || n == "log")
       op.set("l", static_cast<long>(rng.below(6)));
     return op;
   };
@@ -537,7 +556,7 @@ void generate(sim::Rng &rng, sim::Plan &p, bool)
     for (unsigned k = 0; k < len; ++k)
     {
       sim::Op op = make_op(t);
-      if (faulty && rng.chance(1, 4) && op.name != "level" && op.name != "enabled")
+      if (faulty && rng.chance(1, 4) && op.name != "level" && op.name != "enabled" && op.name != "log")
         op.sets("fault", "alloc:" + std::to_string(rng.range(1, 8)));
       p.ops.push_back(op);
     }
